@@ -95,6 +95,16 @@ def obligations(tier, seed):
         checks += ["  CHECK(%s(%d) == %d, \"char-%d\");" % (w.name, i, ord(ch), i) for i, ch in enumerate(text + '\0')]
         obs.append(Ob(id='C18.label.%s' % nm, prop='C18', group='C18.label', prelude=PRE, wrappers=[w, wsz], inputs=[], body='\n' + '\n'.join(checks) + '\n',
                       contract='label constant == "%s" with reported size %d (NUL terminated)' % (text, len(text) + 1), functions_under_contract=('au::unit_label / IToA / UIToA (constant data)',)))
+    # ---- "a unit never prints the label of a unit with a different magnitude": a user-defined unit that gives no label of its own (supporting static facts)
+    SHDR = ('#include "au/au.hh"\n#include "au/units/inches.hh"\n#include "au/units/meters.hh"\n#define VF_STATIC_FACT(c) static_assert(c, "VF_STATIC_FACT")\n'
+            'constexpr bool vf_streq(const char *a, const char *b) { return (*a == *b) && (*a == 0 || vf_streq(a + 1, b + 1)); }\n')
+    for (nm, decl_, text) in (('unlabeled_new_unit', 'struct VD : au::UnitImpl<au::Length> {};', '[UNLABELED UNIT]'),
+                              ('unlabeled_derived_scaled', 'struct VD : decltype(au::Inches{} * au::mag<12>()) {};', '[UNLABELED UNIT]'),
+                              ('labeled_derived_scaled', 'struct VD : decltype(au::Inches{} * au::mag<12>()) { static constexpr const char label[] = "myft"; };\nconstexpr const char VD::label[];', 'myft')):
+        obs.append(Ob(id='C18.static.%s' % nm, prop='C18', group='C18.static', prelude='', wrappers=[], inputs=[], kind='S',
+                      body=SHDR + decl_ + '\nVF_STATIC_FACT(vf_streq(au::unit_label(VD{}), "%s"));\nint main() {}\n' % text,
+                      contract='static fact: a unit declared as `%s` has the label "%s" (never the label of the differently sized unit it is built from)' % (decl_.split(chr(10))[0], text),
+                      functions_under_contract=('au::unit_label / UnitLabel (compile-time)',)))
     # ---- streaming: operator<<(ostream&, Quantity) inserts the NUMERIC value (integer promotion: never the char overload), then " ", then the label.
     #      The ostream is not modelled: its inserters are trusted recorder stubs that log which overload was called with what (ghost log).
     IOPRE = '#include <ostream>\n#include "au/io.hh"\n#include "au/units/meters.hh"\n#include "au/units/seconds.hh"'
@@ -105,13 +115,16 @@ def obligations(tier, seed):
                                        ('u32', 'uint32_t', 'uint32_t', 'j', False), ('i64', 'int64_t', 'int64_t', 'l', False), ('u64', 'uint64_t', 'uint64_t', 'm', False),
                                        ('f64', 'double', 'double', 'd', True), ('f32', 'float', 'float', 'f', True)):
         w = Wrapper('w_stream_' + nm, 'void', [('void*', 'out'), (cty, 'x')], '*static_cast<std::ostream*>(out) << au::make_quantity<au::Meters>((%s)x);' % cxx)
-        val = ('ll2c_io_fp[0] == (double)x || (x != x)') if isfp else 'll2c_io_int[0] == (int64_t)x'
+        # the number the stream prints is the recorded argument read with the signedness of the overload that was called (s, i, l, x are the signed ones): it must be the
+        # mathematical value of x (a uint64_t above 2^63 pushed through a signed overload would print a negative number)
+        val = ('ll2c_io_fp[0] == (double)x || (x != x)') if isfp else \
+            '((ll2c_io_kind[0] == 2 || ll2c_io_kind[0] == 4 || ll2c_io_kind[0] == 6 || ll2c_io_kind[0] == 8) ? (i128)ll2c_io_int[0] : (i128)(uint64_t)ll2c_io_int[0]) == (i128)x'
         body = '''
   char stream_object;
   %s(&stream_object, x);
   CHECK(ll2c_io_n == 3, "exactly-three-insertions");
   CHECK(ll2c_io_kind[0] >= 2 && ll2c_io_kind[0] <= 12, "first-insertion-is-a-numeric-overload-never-a-character");
-  CHECK(%s, "numeric-value-is-the-stored-value");
+  CHECK(%s, "the-number-printed-is-the-mathematical-value-of-the-stored-value");
   CHECK(ll2c_io_kind[1] == 16 && ll2c_io_ptr[1][0] == 32 && ll2c_io_ptr[1][1] == 0, "then-exactly-one-space");
   CHECK(ll2c_io_kind[2] == 16 && ll2c_io_ptr[2][0] == 109 && ll2c_io_ptr[2][1] == 0, "then-the-unit-label");
 ''' % (w.name, val)
